@@ -106,6 +106,9 @@ func (x *fx) declMemVersion(name, tag string) string {
 		if t, ok := x.memType[name]; ok {
 			et := t
 			if a, ok := t.Underlying().(*types.Array); ok {
+				if !strings.HasPrefix(name, "M.") {
+					return v // a struct field holding an array value: the cell is an SMT array
+				}
 				et = a.Elem()
 			}
 			if _, isI := isInt(et); isI {
